@@ -535,11 +535,10 @@ example : FuncsIO.getUnifiedDiff true groupedModel (fun _ _ => ([], 0, 0)) [97, 
 
 /-! ## 6. `buildDiffReport`, `prettyDiff` -/
 
-/-- the footer row `colors.Fprint(&s, colors.Dim, "at name:line\n")` as transliterated (the colour
-    argument of the transliteration is the empty string) -/
+/-- the footer row `colors.Fprint(&s, colors.Dim, "at name:line\n")` (`colors.Dim` = `ESC[2m`) -/
 def footRowIO (nocolor : Bool) (name : Text) (line : Int) : Text :=
   if nocolor then [97, 116, 32] ++ name ++ [58] ++ GoSem.itoa line ++ [10]
-  else [] ++ ([97, 116, 32] ++ name ++ [58] ++ GoSem.itoa line ++ [10]) ++ cReset
+  else [27, 91, 50, 109] ++ ([97, 116, 32] ++ name ++ [58] ++ GoSem.itoa line ++ [10]) ++ cReset
 
 /-- **Closed form of `buildDiffReport`, both colour modes, any `int` counts**: it panics only if
     `intPadding` does (it never does: `intPadding_no_panic`) -/
